@@ -45,10 +45,12 @@ def arange(
 
 def _arange(x, size, start, stop, step, arange_dtype, block_id=None):
     i = block_id[0]
-    blockstart = start + (i * size * step)
-    blockstop = start + ((i + 1) * size * step)
-    blockstop = min(blockstop, stop) if step > 0 else max(blockstop, stop)
-    return nxp.arange(blockstart, blockstop, step, dtype=arange_dtype)
+    # generate exactly as many elements as the block holds (deriving the count from a
+    # floating-point block stop can give one element too many)
+    offset = i * size
+    return nxp.asarray(
+        start + nxp.arange(offset, offset + x.shape[0]) * step, dtype=arange_dtype
+    )
 
 
 def asarray(
